@@ -463,6 +463,7 @@ def callbacks_oracle(obs, x, expect_no_start=False):
         q = [e for e in evs if e['kind'] == 'cb.on_queued' and e['sub'] == s.name]
         dn = [e for e in evs if e['kind'] == 'cb.on_done' and e['sub'] == s.name]
         cancelled_early = bool(cancel_ns) and (not q or min(cancel_ns) < q[0]['n'])
+        has_q, has_d = hasattr(s, 'on_queued'), hasattr(s, 'on_done')
         if len(q) > 1:
             out.append(V(f'{x.label}/{s.name}: on_queued ran {len(q)} times', **mech, sym='on_queued-multi'))
         queued_raised = [r for r in obs.world.director.raised
@@ -472,7 +473,7 @@ def callbacks_oracle(obs, x, expect_no_start=False):
             # remaining on_queued callbacks are not run; then no request may have been issued
             if first_s3 is not None:
                 out.append(V(f'{x.label}/{s.name}: S3 requests were issued although on_queued failed', **mech, sym='s3-after-queued-failure'))
-        elif len(q) == 0:
+        elif len(q) == 0 and has_q:
             if not cancelled_early and x.outcome is not None:
                 out.append(V(f'{x.label}/{s.name}: on_queued never ran', **mech, sym='on_queued-missing'))
             elif first_s3 is not None:
@@ -482,7 +483,7 @@ def callbacks_oracle(obs, x, expect_no_start=False):
         if expect_no_start and (q or first_s3 is not None):
             out.append(V(f'{x.label}/{s.name}: transfer cancelled before start nevertheless ran on_queued / issued requests',
                          **mech, sym='started-after-cancel'))
-        if x.outcome is not None and len(dn) != 1:
+        if x.outcome is not None and len(dn) != 1 and has_d:
             out.append(V(f'{x.label}/{s.name}: on_done ran {len(dn)} times (outcome {x.outcome})', **mech, sym='on_done-count',
                          count=len(dn)))
         for e in dn:
@@ -530,6 +531,8 @@ def progress_oracle(obs, x):
     if x.kind == 'delete':
         return out
     for s in x.subs:
+        if not hasattr(s, 'on_progress'):
+            continue
         if x.outcome == 'success':
             tot = sum(s.progress)
             if tot != size:
